@@ -5,13 +5,15 @@ from props import _dating as D
 from props import c07 as C7
 
 ENV_BY_TIER = {"quick": {"NUMBA_DISABLE_JIT": "1"}, "thorough": {}}
-LEVEL = "translation_validation"
-RULE = ("differential: every method on ts and on copies that differ only in data outside the projection pi -- "
+LEVEL = "proof"
+RULE = ("front end: model/FrontEnd.v on binary64 == the implementation's ExpectationPropagation attributes on inputs with "
+        "arbitrary flag words, internal/historical/renumbered samples, root mutations, mutation-free sites, isolated nodes; "
+        "differential: every method on ts and on copies that differ only in data outside the projection pi -- "
         "ancestral/derived states, populations, mutation-free sites, provenance, metadata of every table (with "
         "permissive JSON schemas), input mutation times, individuals (phased case only) -- results must be "
         "bit-identical; plus the extraction tie of C07 (count_mutations == reference semantics on pi); "
         "non-trivial = both runs returned and >= 2 perturbations applied")
-ASSUME = ["the theorem C08_factorises is a restatement (by construction); the property is decided by this differential check",
+ASSUME = ["the theorems cover the variational front end; that the algorithms downstream read nothing else from the tables is decided by the differential check",
           "perturbed node/mutation metadata uses permissive JSON schemas so that mn/vr are still written (policy of C32)"]
 
 PERTURBATIONS = ["states", "populations", "monomorphic_sites", "provenance", "metadata", "mutation_times",
@@ -146,7 +148,86 @@ def one(ctx, rng):
         ctx.oracle_fail("result-depends-on-ignored-data", "%s: %s differs by %.3g after perturbing %s" % (method, key, d, kinds), replay)
 
 
+def front_end_case(rng):
+    """a tree sequence whose node table is as unlike a simulator's as tskit allows: extra flag bits, samples
+    that are internal / historical / not the first ids, mutation-free sites, sometimes an isolated node"""
+    from vlib import gen
+    import tskit
+    ts = gen.sim_ts(rng, n=rng.randint(2, 6), L=rng.choice([5, 20, 100]), historical=rng.random() < 0.4)
+    if rng.random() < 0.4:
+        ts = gen.internal_samples(rng, ts, k=rng.randint(1, 2))
+    ts, applied = gen.exotic(rng, ts, kinds=("extra_flags", "permute_nodes", "root_mutations", "monomorphic_sites"), p=0.5)
+    if rng.random() < 0.15:
+        t = ts.dump_tables()
+        t.nodes.add_row(flags=rng.choice([0, 1, 1 << 20]), time=float(rng.randint(0, 3)))
+        ts = t.tree_sequence()
+        applied.append("isolated_node")
+    return ts, applied
+
+
+def front_end_impl(ts, mu):
+    import tsdate.variational as V
+    try:
+        ep = V.ExpectationPropagation(ts, mutation_rate=mu, allow_unary=True)
+    except ValueError as e:
+        return ("raise", str(e))
+    return ("ok", {
+        "constraints": [(float(a), float(b)) for a, b in ep.node_constraints],
+        "roots": [bool(x) for x in ep.roots], "leaves": [bool(x) for x in ep.leaves],
+        "unconstrained": [bool(x) for x in ep.unconstrained_roots],
+        "mut_edges": [int(x) for x in ep.mutation_edges],
+        "edge_inputs": [(int(round(a)), float(b)) for a, b in ep.edge_likelihoods]})
+
+
+def front_end_tie(ctx, n):
+    """model/FrontEnd.v evaluated on binary64 == the attributes of the implementation's ExpectationPropagation
+    object, on inputs with arbitrary flag words"""
+    from vlib import gen
+    from vlib.coqfmt import cfloat, cnat, cZ, clist
+    items = [front_end_case(ctx.rng) + (ctx.rng.choice([1.0, 0.5, 0.37, 1e-3]),) for _ in range(n)]
+    terms = []
+    for ts, applied, mu in items:
+        ns = clist(list(zip(ts.nodes_flags, ts.nodes_time)), lambda x: "(%s, %s)" % (cZ(int(x[0])), cfloat(float(x[1]))))
+        es = clist(list(ts.edges()), lambda e: "(%s, %s, %s, %s)" % (cfloat(e.left), cfloat(e.right), cnat(e.parent), cnat(e.child)))
+        ss = clist([float(x) for x in ts.sites_position], cfloat)
+        ms = clist(list(zip(ts.mutations_site, ts.mutations_node)), lambda m: "(%s, %s)" % (cnat(int(m[0])), cnat(int(m[1]))))
+        terms.append("front_end_F %s %s %s %s %s" % (ns, es, ss, ms, cfloat(mu)))
+    res = []
+    for k in range(0, len(terms), 50):
+        res += ctx.coq_eval("Eval vm_compute in %s.\n" % clist(terms[k:k + 50]), requires=("lib.Num", "model.Inputs", "model.FrontEnd"),
+                            tag="frontend%d" % k)[0]
+    for (ts, applied, mu), m in zip(items, res):
+        samples, cs, valid, (roots, leaves, disconnected, unconstrained), pl, medges, einputs = m
+        rp = {"ts": gen.ts_tables_dict(ts), "mu": mu, "applied": applied}
+        for a in applied:
+            ctx.tally("front-end/" + a)
+        ok = [int(x) for x in samples] == [int(u) for u in ts.samples()]
+        ctx.corr("ts.samples() == model samples", ok, "model=%r impl=%r" % (samples, list(ts.samples())), replay=rp)
+        pos = ts.sites_position[ts.mutations_site]
+        ipl = [(float(x), int(u)) for x, u in zip(pos, ts.mutations_node)]
+        mpl = [(float(o[1][0]), int(o[1][1])) if o is not None else None for o in pl]
+        ctx.corr("mutation placements == model", ipl == mpl, "impl=%r model=%r" % (ipl, mpl), replay=rp)
+        r = front_end_impl(ts, mu)
+        if r[0] == "raise":
+            expect = (not valid) or disconnected
+            ctx.corr("front end raises iff the model says invalid/disconnected", expect and
+                     (("disconnected" in r[1]) == (valid and disconnected)), "impl raised %r; model valid=%r disconnected=%r" % (r[1], valid, disconnected), replay=rp)
+            ctx.case({"front_end": "raise", "msg": r[1][:60], "applied": applied}, nontrivial=True, kind="front-end/raise")
+            continue
+        d = r[1]
+        mcs = [(float(a), float("inf") if b is None else float(b[1])) for a, b in cs]
+        ok = (valid and not disconnected and mcs == d["constraints"] and [bool(x) for x in roots] == d["roots"]
+              and [bool(x) for x in leaves] == d["leaves"] and [bool(x) for x in unconstrained] == d["unconstrained"]
+              and [(-1 if o is None else int(o[1])) for o in medges] == d["mut_edges"]
+              and [(int(k), float(v)) for k, v in einputs] == d["edge_inputs"])
+        ctx.corr("ExpectationPropagation front end == model/FrontEnd.v (binary64)", ok,
+                 "impl=%r model=%r" % (d, (valid, disconnected, mcs, roots, leaves, unconstrained, medges, einputs)), replay=rp)
+        ctx.case({"front_end": "ok", "ts": gen.ts_summary(ts), "applied": applied}, nontrivial=len(applied) >= 1, kind="front-end/ok")
+
+
 def run(ctx, model_ok=True):
+    if model_ok:
+        front_end_tie(ctx, ctx.n(60, 400))
     # extraction layer == reference semantics on pi (shared with C07)
     tss = [C7.extraction_case(ctx.rng) for _ in range(ctx.n(40, 300))]
     if model_ok:
